@@ -97,6 +97,11 @@ CLAIMED["C16"] = ("fault_enumeration",
    "A *running* namespace-runner program is outside the statement (it names the container controller and the tracer); only the launch hand-shake of the namespace runner is covered. Zombies re-parented to the VM's init do not count as alive.",
    "crash-point enumeration + property-based testing (rapid) with a process-table oracle", "§3 C16")
 
+CLAIMED["C17"] = ("exploration",
+   "Generated workloads of 2..16 run descriptors (ptrace runs with 3/20/150 traced path calls on run-specific names and per-run handler decisions, namespace runs, Execve on up to 3 environments, Ping/Open on the same environments, some cancelled) are executed once sequentially and once concurrently from a start barrier with 0..2 ms stagger; per descriptor the status, exit code, identity of its marker descriptor, output bytes, return values seen by the program, handler record multiset and SyncFunc pid must be identical in both executions and be the descriptor's own; a separate part holds an Execve in flight for 3.6 s while Ping/Open are called on the same environment.",
+   "Schedule coverage is statistical (the OS scheduler inside forkAndExecInChild cannot be pinned); how far a cancelled program got is not compared. The thorough tier repeats the workloads under 8 shards.",
+   "metamorphic property testing (rapid): alone vs. concurrent execution of the same workload", "§3 C17")
+
 NOT_YET = {}
 
 def main():
